@@ -188,7 +188,7 @@ let run_case (line:str) : str =
      | R200 b -> "200 " ^ hex_of_bytes b
      | R204 -> "204"
      | R500 -> "500")
-  | "buildrl_gz" | "optdir_gz" | "cluster_root" -> "ok"
+  | "buildrl_gz" | "optdir_gz" | "cluster_root" | "extract_leaves" -> "ok"
   | "buildrl" ->
     let leaf = tn ts in let es = tents ts in
     let ((root, leaves), n) = build_roots_leaves serialize_entries es leaf in
@@ -249,6 +249,8 @@ let run_case (line:str) : str =
     ignore tp; dg (fs_get ap s) (* the archive path; what is left of FILE.tmp is not part of the property *)
   | "kill" -> "safe"
   | "metasched" -> "ok" (* metadata / TileJSON requests under replacement: judged by the oracle (the executable model has tile requests) *)
+  | "held" -> "ok" (* a tile read answered before a replacement and delivered after it: judged by the single-version / timing oracle *)
+  | "cancelfirst" -> "ok" (* the first of two requests sharing a fetch is cancelled: the other must be answered as uncached; oracle only *)
   | "corruptleaf" -> "ok" (* an archive with unparsable leaf directories asked repeatedly: the cache must not change the answer; oracle only *)
   | "backend" -> "ok" (* sequential requests around replacements on the real local-directory / HTTP buckets: oracle only *)
   | "micro" -> "ok" (* C08_single_version_tile holds for every interleaving of loop messages; the run checks the implementation alone *)
@@ -364,6 +366,7 @@ let run_case (line:str) : str =
     (match file_for_key root (bytes_of_hex (tok ts)) with
      | None -> "refused"
      | Some segs -> "local " ^ hex_of_bytes (L.concat_map (fun sg -> n_of_int 47 :: sg) segs))
+  | "readbig" -> "ok" (* a range far larger than any transport buffer over the HTTP backend: judged by the oracle (exact bytes) *)
   | "adapter" -> "ok" (* the cloud adapter over a stand-in provider driver: judged by the oracle (exact bytes, tags, stale-tag refusal, missing object) *)
   | "serve" -> "confined"
   | "read" ->
